@@ -335,10 +335,13 @@ def from_image_str(s):
 
 
 # ---- N1..N4 penalty (ISO/IEC 18004 7.8.3.1) on a finished symbol
-def penalty(m):
+def penalty_variants(m):
+    """all admissible readings of the penalty: N3 in {pattern with 4 light modules on a side, modules outside the
+    symbol counting as light, scored once per occurrence (zxing) or once per side (Nayuki); strict: the light
+    modules must lie inside the symbol} x N4 in {floor, ceil-1 at exact 5% boundaries}.  Returns a list of totals."""
     n = len(m)
-    res = 0
     lines = [row[:] for row in m] + [[m[y][x] for y in range(n)] for x in range(n)]
+    n1 = 0
     for line in lines:
         run, prev = 0, None
         for v in line + [None]:
@@ -346,32 +349,37 @@ def penalty(m):
                 run += 1
             else:
                 if prev is not None and run >= 5:
-                    res += 3 + run - 5
+                    n1 += 3 + run - 5
                 run, prev = 1, v
+    n2 = 0
     for y in range(n - 1):
         for x in range(n - 1):
             if m[y][x] == m[y][x + 1] == m[y + 1][x] == m[y + 1][x + 1]:
-                res += 3
+                n2 += 3
     pat = [1, 0, 1, 1, 1, 0, 1]
+    once = sides = strict = 0
     for line in lines:
         for i in range(n - 6):
             if line[i:i + 7] == pat:
-                before = line[max(0, i - 4):i]
-                after = line[i + 7:i + 11]
-                lb = len(before) == 4 and not any(before)
-                la = len(after) == 4 and not any(after)
-                # light area of 4 modules on either side (symbol border counts as light only if 4 modules exist: strict reading)
-                if lb or la:
-                    res += 40
+                before = [line[k] if 0 <= k < n else 0 for k in range(i - 4, i)]
+                after = [line[k] if 0 <= k < n else 0 for k in range(i + 7, i + 11)]
+                lb, la = not any(before), not any(after)
+                sb = i - 4 >= 0 and lb
+                sa = i + 11 <= n and la
+                once += 40 if (lb or la) else 0
+                sides += 40 * (int(lb) + int(la))
+                strict += 40 if (sb or sa) else 0
     dark = sum(map(sum, m))
     total = n * n
-    k = 0
-    while not (abs(dark * 20 - total * 10) <= total * (k + 1)) and k < 10:
-        k += 1
-    # k = number of complete 5% steps of deviation from 50%; at an exact boundary both readings occur in practice
-    k_floor = abs(dark * 20 - total * 10) // total
-    k_ceilm1 = max(0, -(-abs(dark * 20 - total * 10) // total) - 1)
-    return res, (k_floor * 10, k_ceilm1 * 10)
+    dev = abs(dark * 20 - total * 10)
+    k_floor = dev // total
+    k_ceilm1 = max(0, -(-dev // total) - 1)
+    return [n1 + n2 + n3 + 10 * k for n3 in (once, sides, strict) for k in (k_floor, k_ceilm1)]
+
+
+def penalty(m):
+    vs = penalty_variants(m)
+    return min(vs), (0, max(vs) - min(vs))
 
 
 # ---- reference reader (no error correction: data codewords taken as they are)
